@@ -8,7 +8,7 @@ class Body:
         self.d = d
         self.key = d["key"]
         self.uid = d["uid"]
-        self.base_uid = re.sub(r'#[is]+$', '', d["uid"])   # identity of the source function whatever the view
+        self.base_uid = re.sub(r'#[isp]+$', '', d["uid"])   # identity of the source function whatever the view
         self.kind = d["kind"]
         self.name = d["name"]
         self.vis = d["vis"]
@@ -146,7 +146,7 @@ class Facts:
         if b is None or self.view == 'orig':
             return b
         from .inline import inlined
-        return inlined(self, b, t1='i' in self.view, t2='s' in self.view)
+        return inlined(self, b, t1=('p' if 'p' in self.view else ('i' in self.view)), t2='s' in self.view)
 
     def cb(self, uid):
         """Closure (or any) body by uid, in the current view."""
